@@ -9,8 +9,8 @@ RULE = ("one transmitting RF24 and one receiving RF24 (six pipes open) on a simu
         "list with a concurrently polling peer thread, SPI flavour); unique-id payloads. "
         "Non-trivial: a payload was loaded into the radio or a rejection was observed; "
         "distinct = distinct abstract case tuples (payload contents abstracted).")
-RULE += (" Later rounds added: ping-pong role swaps, write()-until-refused streaming, set-up histories between opening the pipes and the traffic (role round trips, with re-entry, late address width, sender's own pipe-0 address, short re-open), blind read()-until-None drains, per-pipe static length styles.")
-REQUIRED = {"bus_bytes": 500, "peer_read": 500, "buffer_unmodified": 500, "rejection_state": 20,
+RULE += (" Later rounds added: ping-pong role swaps, write()-until-refused streaming, set-up histories between opening the pipes and the traffic (role round trips, with re-entry, late address width, sender's own pipe-0 address, short re-open), blind read()-until-None drains, per-pipe static length styles, replies left unread in the sender's RX FIFO across a send(send_only=True) with forced retries and a lost first burst.")
+REQUIRED = {"bus_bytes": 500, "peer_read": 500, "buffer_unmodified": 500, "rejection_state": 20, "unread_replies_survive_send_only": 100,
             "exactly_once": 500, "pipe_attribution": 500}
 ASSUMPTIONS = ["configurations respect the documented ARD/data-rate constraint",
                "with auto-ack off or ask_no_ack, a payload lost because the peer's 3-level RX "
@@ -310,6 +310,60 @@ def _run_single(ctx, case, pair, prefix):
             ctx.violation(prefix + "pingpong-second-round-mismatch", "second forward payload to pipe %d "
                           "after a role swap was read as %r, expected %s" % (case["pipe"], got3, exp3[0].hex()), case)
             return
+        if case["seed"] % 2 == 0:
+            # replies the first sender has not read yet survive its next send(send_only=True) -
+            # "the RX FIFO is not flushed" - also when that send needs its forced retries
+            k_unread = 1 + (case["seed"] >> 3) % 3
+            fr = (case["seed"] >> 5) % 3
+            fail_first = bool((case["seed"] >> 7) % 2)
+            rnd = __import__("random").Random(case["seed"] ^ 0x5E0)
+            tx.listen = True
+            pair.rig.node.idle(400000)
+            rx.listen = False
+            replies = [bytes(L.make_payload(rnd, rnd.randrange(1, 33), 0x30 + i)) for i in range(k_unread)]
+            for b in replies:
+                rx.send(b, ask_no_ack=case["ask_no_ack"])
+            pair.rig.node.idle(2 * W.MS)
+            tx.listen = False  # without reading
+            rx.listen = True
+            pair.rig.node.idle(400000)
+            waiting = len(rt.rx_fifo)
+            fwd = bytes(L.make_payload(rnd, rnd.randrange(1, 33), 0x55))
+            left = [(1 + tx.arc) if fail_first else 0]
+
+            def drop(pkt, rxr):
+                if pkt.kind == "data" and pkt.src is rt and left[0] > 0:
+                    left[0] -= 1
+                    return True
+                return False
+            prev_fault = pair.rig.air.fault
+            pair.rig.air.fault = drop
+            node.deadline = node.t + 400 * W.MS
+            try:
+                r4 = tx.send(fwd, ask_no_ack=case["ask_no_ack"], force_retry=fr, send_only=True)
+            except W.VirtualDeadline:
+                ctx.violation(prefix + "send-does-not-return", "send(send_only=True, force_retry=%d) did not return" % fr, case)
+                return
+            finally:
+                node.deadline = None
+                pair.rig.air.fault = prev_fault
+            pair.rig.node.idle(2 * W.MS)
+            got4 = [g[1] for g in _drain(rx)]
+            exp4 = L.expected_bytes(fwd, case["static"])
+            mine = _drain(tx)
+            expr = [L.expected_bytes(b, case["static"]) for b in replies][:waiting]
+            ctx.clause("unread_replies_survive_send_only")
+            if [g[1] for g in mine] != expr or any(g[0] != 1 for g in mine):
+                ctx.violation(prefix + "unread-replies-lost-by-send-only", "%d replies waited unread in the sender's RX "
+                              "FIFO; after send(send_only=True, force_retry=%d) -> %r (first burst %s) it reads %r, "
+                              "expected %r on pipe 1" % (waiting, fr, r4, "lost" if fail_first else "heard",
+                                                         [(g[0], g[1].hex()) for g in mine], [e.hex() for e in expr]), case)
+                return
+            if got4 not in ([], [exp4]) or (r4 is True and unacked is False and got4 != [exp4]):
+                ctx.violation(prefix + "peer-read-mismatch", "payload sent with send_only=True, force_retry=%d "
+                              "(-> %r) was read by the peer as %r" % (fr, r4, [g.hex() for g in got4]), case)
+                return
+            ctx.count("send_only_with_%d_unread_fr%d_%s" % (waiting, fr, "lostburst" if fail_first and not unacked else "clean"))
     ctx.nontrivial(sig_of(case))
     ctx.sample({"case": {k: case[k] for k in ("lens", "btype", "static", "pipe", "aw", "rate",
                                                "crc", "auto_ack", "ask_no_ack", "form", "flavour")},
